@@ -25,6 +25,15 @@ static int vp_snprintf(char *buf, size_t sz, const char *fmt, ...);
 static void *vp_task_alloc(parsec_thread_mempool_t *mp);
 #define parsec_thread_mempool_allocate vp_task_alloc
 #endif
+/* -DVP_PTG_STUB_RING: the generated startup code collects new tasks with the inline
+ * parsec_list_item_ring_push_sorted (list_item.h, C31's unit); redirect it to the harness'
+ * vp_ring_push_sorted(ring, item, offset) so that no pointer-linked ring is built. */
+#ifdef VP_PTG_STUB_RING
+#include "parsec.h"
+#include "parsec/class/list_item.h"
+static parsec_list_item_t *vp_ring_push_sorted(parsec_list_item_t *ring, parsec_list_item_t *item, size_t off);
+#define parsec_list_item_ring_push_sorted vp_ring_push_sorted
+#endif
 /* JDF epilogues may carry a main() */
 #define main generated_main
 #endif
